@@ -252,6 +252,8 @@ func checkC07(c *Ctx) {
 	r.Rule("C07.H4", "every self-contained template parses as Rego for every operator constant", 60)
 	r.Rule("C07.H5", "path text and the package name are neutralised for their context", 10)
 	r.Rule("C07.H6", "grammar IRI characters are accepted by the IRI expander", 2)
+	r.Rule("C07.H7", "constraint templates declare no fixed-name local at rule-body scope (two constraints of one kind share a body)", 8)
+	c07FixedLocals(c)
 
 	te := newTaintEngine(p)
 	te.Run()
@@ -1285,3 +1287,81 @@ func c07IriAgreement(c *Ctx) {
 
 var _ = constant.MakeBool
 var _ = sort.Strings
+
+// c07FixedLocals (H7): the code of several constraints is concatenated into one rule body (alternatives of an `or`, the
+// two sides of an if/then, constraints under one nested). A template of a constraint generator that declares a local with
+// `:=` under a FIXED name at rule-body scope therefore declares it twice as soon as two constraints of that kind meet:
+// OPA rejects the module ("var ... assigned above"). Names must come from the fresh-name generator, or live inside a
+// comprehension. Texts are collected with E-sym, so Sprintf templates and concatenations are treated alike.
+func c07FixedLocals(c *Ctx) {
+	r, p := c.R, c.P
+	m, err := loadC01Model(p)
+	if err != nil {
+		r.Unknown("C07.H7", "model", "", err.Error())
+		return
+	}
+	info := m.gen.TypesInfo
+	decl := regexp.MustCompile(`^\s*([A-Za-z_][A-Za-z0-9_]*)\s*:=`)
+	for _, f := range m.gen.Syntax {
+		for _, d := range f.Decls {
+			fd, ok := d.(*ast.FuncDecl)
+			if !ok || fd.Body == nil || fd.Type.Params == nil || len(fd.Type.Params.List) == 0 {
+				continue
+			}
+			tv, ok := info.Types[fd.Type.Params.List[0].Type]
+			if !ok {
+				continue
+			}
+			nt := namedOf(tv.Type)
+			if nt == nil || !(m.atomic[nt] || m.complex_[nt]) || nt.Obj().Name() == "TopLevelExpression" {
+				continue
+			}
+			key := relOf(m.gen) + "." + fd.Name.Name
+			var bad []string
+			texts := 0
+			proto := &symWalker{}
+			proto.OnText = func(w *symWalker, at ast.Expr, text *Sym) {
+				texts++
+				tpl := text.Template()
+				depth := 0
+				for _, line := range strings.Split(tpl, "\n") {
+					if depth == 0 {
+						if mm := decl.FindStringSubmatch(line); mm != nil {
+							bad = append(bad, fmt.Sprintf("%q at %s", strings.TrimSpace(line), p.Pos(at.Pos())))
+						}
+					}
+					inStr := false
+					for i := 0; i < len(line); i++ {
+						ch := line[i]
+						if inStr {
+							if ch == '\\' {
+								i++
+							} else if ch == '"' {
+								inStr = false
+							}
+							continue
+						}
+						switch ch {
+						case '"':
+							inStr = true
+						case '#':
+							i = len(line)
+						case '{', '[', '(':
+							depth++
+						case '}', ']', ')':
+							if depth > 0 {
+								depth--
+							}
+						}
+					}
+				}
+			}
+			p.SymWalk(m.gen, fd, proto, nil)
+			if texts == 0 {
+				continue
+			}
+			sort.Strings(bad)
+			r.Check(len(bad) == 0, "C07.H7", key, p.Pos(fd.Pos()), fmt.Sprintf("%d templates: every local declared at rule-body scope has a generated name", texts), "a template of this constraint generator declares a fixed-name local at rule-body scope: "+strings.Join(bad, "; ")+"; two constraints of this kind in one rule body (or, if/then, not over two constraints, one nested) make OPA reject the module: var assigned above")
+		}
+	}
+}
